@@ -53,10 +53,14 @@ pub open spec fn entry_e(e: Expr, pre: Compiler, post: Compiler) -> LogEntry { L
 pub open spec fn entry_s(st: Stmt, pre: Compiler, post: Compiler) -> LogEntry { LogEntry { what: LogWhat::S(st), start: pre.instructions@.len() as int, end: post.instructions@.len() as int, depth: sym_depth(pre.symbols), contexts: sym_contexts(pre.symbols) } }
 
 // the real fields + GHOST field `log` (not in the real struct, never constructed by extracted code): see LogEntry
-//@TYPE file=compiler.rs name=Compiler extra="pub log: Ghost<Seq<LogEntry>>,"
+//@TYPE file=compiler.rs name=Compiler extra="pub log: Ghost<Seq<LogEntry>>, pub height: Ghost<H>, pub loop_h: Ghost<Seq<H>>,"
 
 /// state invariant of code generation (requires AND ensures of every generator): the peephole invariant
-pub open spec fn gen_inv(c: Compiler) -> bool { peephole_inv(c) && sym_wf(c.symbols) }
+pub open spec fn gen_inv(c: Compiler) -> bool {
+    peephole_inv(c) && sym_wf(c.symbols)
+    // a remembered `antwoord` means nothing falls out of the end of the code (what the Function arm's peephole relies on)
+    && (c.last_instruction == Some(OpCode::ReturnValue) ==> c.height@ is Dead)
+}
 
 /// the pending-`stop` list of loop context i, as positions
 pub open spec fn breaks(c: Compiler, i: int) -> Seq<usize> { c.loop_contexts@[i].break_instructions@ }
@@ -91,6 +95,8 @@ pub open spec fn gen_post(pre: Compiler, post: Compiler, ok: bool) -> bool {
         })
     &&& pre.constants@.len() <= post.constants@.len()
     &&& (forall|i: int| 0 <= i < pre.constants@.len() ==> post.constants@[i] == pre.constants@[i])
+    // GHOST: the static height every enclosing loop expects at its exit / at its start label (one entry per loop context)
+    &&& post.loop_h@ == pre.loop_h@
     &&& (ok ==> sym_depth(post.symbols) == sym_depth(pre.symbols) && sym_contexts(post.symbols) == sym_contexts(pre.symbols) && sym_outer(post.symbols) == sym_outer(pre.symbols))
 }
 
@@ -147,7 +153,7 @@ pub open spec fn block_value_post(pre: Compiler, post: Compiler, stmts: Seq<Stmt
 pub open spec fn le16(v: int) -> Seq<u8> { seq![(v % 256) as u8, (v / 256) as u8] }
 /// frame condition of the emit helpers: only the code buffer (and last_instruction for emit_opcode) changes
 pub open spec fn same_but_code(a: Compiler, b: Compiler) -> bool {
-    a.symbols == b.symbols && a.constants == b.constants && a.loop_contexts == b.loop_contexts && a.log@ == b.log@
+    a.symbols == b.symbols && a.constants == b.constants && a.loop_contexts == b.loop_contexts && a.log@ == b.log@ && a.loop_h@ == b.loop_h@
 }
 pub open spec fn is_prefix(a: Seq<u8>, b: Seq<u8>) -> bool { a.len() <= b.len() && forall|k: int| 0 <= k < a.len() ==> #[trigger] b[k] == a[k] }
 /// global invariant of the code buffer that the last-instruction peepholes rely on: if the last opcode emitted is
@@ -162,18 +168,20 @@ impl Compiler {
     #[verifier::external_body]
     fn emit_opcode(&mut self, op: OpCode)
         ensures final(self).instructions@ == old(self).instructions@.push(opcode_byte(op)), final(self).last_instruction == Some(op), same_but_code(*old(self), *final(self)),
+                // GHOST instrumentation (definition of the static height): the emitted opcode's effect, or the end of the flow
+                final(self).height@ == (if op_ends_flow(op) { H::Dead } else { hplus(old(self).height@, op_delta(op)) }),
                 // DERIVED (lemma_emit_opcode_inv, unit c11_control): follows from the three facts above
                 gen_inv(*old(self)) ==> gen_inv(*final(self)),
     { unimplemented!() }
     #[verifier::external_body]
     fn emit_u8(&mut self, v: u8)
-        ensures final(self).instructions@ == old(self).instructions@.push(v), final(self).last_instruction == old(self).last_instruction, same_but_code(*old(self), *final(self)),
+        ensures final(self).instructions@ == old(self).instructions@.push(v), final(self).last_instruction == old(self).last_instruction, same_but_code(*old(self), *final(self)), final(self).height@ == old(self).height@,
                 // DERIVED (lemma_emit_operand_inv, unit c11_control)
                 (gen_inv(*old(self)) && !(old(self).last_instruction is Some && no_operand_tail(old(self).last_instruction->Some_0))) ==> gen_inv(*final(self)),
     { unimplemented!() }
     #[verifier::external_body]
     fn emit_u16(&mut self, v: u16)
-        ensures final(self).instructions@ == old(self).instructions@ + le16(v as int), final(self).last_instruction == old(self).last_instruction, same_but_code(*old(self), *final(self)),
+        ensures final(self).instructions@ == old(self).instructions@ + le16(v as int), final(self).last_instruction == old(self).last_instruction, same_but_code(*old(self), *final(self)), final(self).height@ == old(self).height@,
                 // DERIVED (lemma_emit_operand_inv, unit c11_control)
                 (gen_inv(*old(self)) && !(old(self).last_instruction is Some && no_operand_tail(old(self).last_instruction->Some_0))) ==> gen_inv(*final(self)),
     { unimplemented!() }
@@ -194,7 +202,7 @@ impl Compiler {
             old(self).constants@.len() <= final(self).constants@.len(),
             forall|i: int| 0 <= i < old(self).constants@.len() ==> final(self).constants@[i] == old(self).constants@[i],
             final(self).instructions == old(self).instructions, final(self).last_instruction == old(self).last_instruction,
-            final(self).symbols == old(self).symbols, final(self).loop_contexts == old(self).loop_contexts, final(self).log@ == old(self).log@,
+            final(self).symbols == old(self).symbols, final(self).loop_contexts == old(self).loop_contexts, final(self).log@ == old(self).log@, final(self).height@ == old(self).height@, final(self).loop_h@ == old(self).loop_h@,
             // DERIVED (code buffer, last_instruction and loop contexts are unchanged)
             gen_inv(*old(self)) ==> gen_inv(*final(self)),
     { unimplemented!() }
@@ -207,7 +215,7 @@ impl Compiler {
         requires idx + 2 < old(self).instructions@.len(),
                  old(self).instructions@[idx as int] == opcode_byte(OpCode::Jump) || old(self).instructions@[idx as int] == opcode_byte(OpCode::JumpIfFalse)
         ensures final(self).instructions@ == old(self).instructions@.update(idx + 1, (v as int % 256) as u8).update(idx + 2, (v as int / 256) as u8),
-                final(self).last_instruction == old(self).last_instruction, same_but_code(*old(self), *final(self))
+                final(self).last_instruction == old(self).last_instruction, same_but_code(*old(self), *final(self)), final(self).height@ == old(self).height@
     { unimplemented!() }
 
     /// The recursive code generators as their callers see them (induction hypothesis of the structural
@@ -220,6 +228,8 @@ impl Compiler {
         ensures
             r is Ok ==> final(self).log@ == old(self).log@.push(entry_e(*expr, *old(self), *final(self))),
             r is Ok ==> gen_post(*old(self), *final(self), true),
+            // an expression leaves exactly ONE value (static height, see opcodes.rs)
+            r is Ok ==> hstep(old(self).height@, final(self).height@, 1),
             sym_wf(final(self).symbols),   // also when the generator fails: compile_ast resets the table afterwards
     { unimplemented!() }
     #[verifier::external_body]
@@ -228,6 +238,8 @@ impl Compiler {
         ensures
             r is Ok ==> final(self).log@ == old(self).log@.push(entry_s(*stmt, *old(self), *final(self))),
             r is Ok ==> gen_post(*old(self), *final(self), true),
+            // a statement leaves NOTHING behind
+            r is Ok ==> hstep(old(self).height@, final(self).height@, 0),
             sym_wf(final(self).symbols),   // also when the generator fails: compile_ast resets the table afterwards
     { unimplemented!() }
 //@ASSUMES unit=c02_blocks.rs fn=compile_block_statement full=1
